@@ -352,6 +352,30 @@ def run_case(case, R):
         if any(STYPE[n["kind"]] is bool for _, n in fields) and depth >= 2 and argv and len(effective) < len(fields):
             R.nontrivial = True
 
+        # ---- (c2) an option supplied for a field whose environment variable is set: the override is an assignment like any other
+        saved_env = {k: os.environ.pop(k) for k in list(os.environ) if k.startswith("CCV16")}
+        try:
+            es = cc.Schema(env="CCV16")
+            es.port = cc.IntField(default=80)
+            es.db.host = cc.HostnameField(default="localhost")
+            es.db.debug = cc.BoolField(default=False)
+            os.environ["CCV16_PORT"] = "8080"
+            os.environ["CCV16_DB_HOST"] = "env.example"
+            os.environ["CCV16_DB_DEBUG"] = "false"
+            ecfg = es()
+            eparser = cc.generate_argparse_parser(es)
+            cc.cmdline_args_override(ecfg, eparser.parse_args(["--port=9090", "--db-host=cli.example", "--db-debug"]))
+            got_env = (ecfg.port, ecfg.db.host, ecfg.db.debug)
+            R.label("override:env-bound-fields")
+            R.check(got_env == (9090, "cli.example", True), "override", "env-bound",
+                    lambda: "options supplied for fields whose environment variables are set: fields read %r, want (9090, 'cli.example', True)" % (got_env,))
+        except Exception as exc:
+            R.fail("override", "env-bound:raises", "override of env-bound fields raised %r" % (exc,))
+        finally:
+            for k in [k for k in os.environ if k.startswith("CCV16")]:
+                del os.environ[k]
+            os.environ.update(saved_env)
+
         # ---- (d) the schema grows after it has been enumerated: every view must follow ---------------------------------
         # round 1 touches nested schemas only (the root schema object itself is not written to), round 2 the root
         nested_scopes = [p for p, n in enum if n["kind"] == "schema"]
